@@ -111,7 +111,7 @@ T_DEF = 'R27: #[derive(Default)] on Packet expanded to the impl rustc generates 
 T_UINT = 'option_from_uint/option_to_uint are not read by Verus: their contracts (shortest big-endian form / big-endian value or error by length) are proved on the real functions for all values of all four widths by the Kani harnesses uint_encode_* / uint_decode_* and assumed in the Verus units (modular composition)'
 CHECKS['C07'] = {
     'level': 'proof',
-    'units': ['resp'],
+    'units': ['resp7'],
     'kani': [],
     'technique': 'contract-based deductive verification (Verus) of CoapResponse::new, CoapRequest::from_packet and apply_from_error with whole-message postconditions',
     'level_text': 'Unbounded proof over all request packets (any header byte, code, message id, token 0-8 bytes, options, payload): a response is prepared iff the type bits are CON/NON; it has version 1, ACK for CON / NON for NON, the request message id and token (and TKL), code 2.05, no options, no payload. apply_from_error returns true iff there is a response and the error has a code, and then changes only code, payload and the Content-Format option; otherwise nothing changes.',
@@ -158,7 +158,7 @@ CHECKS['C14'] = {
 }
 CHECKS['C15'] = {
     'level': 'proof',
-    'units': ['obs', 'resp'],
+    'units': ['obs', 'resp15'],
     'kani': [],
     'technique': 'contract-based deductive verification (Verus) of Subject::resource_changed and acknowledge (closures verbatim with spliced contracts) and create_notification',
     'level_text': 'Unbounded proof: each notification round on an observed resource sets sequence := sequence + 1, stamps every observer with the message id, adds 1 to its counter iff the round is confirmable, and keeps exactly (in order) the observers whose counter is <= the limit, for every limit 0..255; an acknowledgement resets exactly the first observer of each resource whose endpoint matches and whose pending message id is the acknowledged one (count := 0, pending id cleared), any other acknowledgement changes nothing; the counter addition is proved overflow-free from the invariant counter <= 255 (so whatever the limit and however long the history). create_notification yields version 1, CON/NON, 2.05, the given message id, token and payload and a single Observe option with the minimal uint of the sequence number.',
